@@ -40,6 +40,7 @@ type c19Case struct {
 	Kind   string `json:"kind"` // helper | render | negotiate
 	Helper string `json:"helper,omitempty"`
 	First  int    `json:"first,omitempty"`
+	MaxLen int    `json:"max_accept_entries,omitempty"`
 }
 
 var c19Helpers = []string{"Text", "HTML", "JSON", "JSONBytes", "JSONP", "XML", "Blob", "Stream", "NoContent", "Redirect", "HTTPError"}
@@ -72,7 +73,7 @@ func c19Gen(tier string, emit func(c19Case)) {
 	}
 	emit(c19Case{Kind: "render"})
 	for i := 0; i < len(c19Accepts); i++ {
-		emit(c19Case{Kind: "negotiate", First: i})
+		emit(c19Case{Kind: "negotiate", First: i, MaxLen: map[string]int{"quick": 3, "thorough": 4}[tier]})
 	}
 }
 
@@ -442,7 +443,7 @@ func c19Run(c c19Case, st *fw.Stats) []fw.Viol {
 				}
 				add(sig, fmt.Sprintf("render.Auto with Accept %q: rendered as %q (Content-Type %q, err=%v), the first supported type listed is %q", accept, got, ct, err, want))
 			}
-			if len(list) == 3 {
+			if len(list) >= max(c.MaxLen, 3) {
 				return
 			}
 			for _, a := range c19Accepts {
@@ -463,7 +464,7 @@ func c19Run(c c19Case, st *fw.Stats) []fw.Viol {
 var c19Spec = fw.Spec[c19Case]{
 	ID:    "C19",
 	Level: "model_checking",
-	Rule: "complete product: 11 context helpers x 8 status codes x value alphabets (7 strings with HTML / unicode / control characters; maps, structs, pointers, byte and int slices, scalars; unencodable chan / func / NaN / Inf / cyclic values) x preset Content-Type absent / present; 11 pkg/render functions x 3 preset Content-Types; render.Auto x ALL Accept lists of <=3 entries over 10 entries (the five supported MIME strings, foo/bar, */*, q-parameters, empty); " +
+	Rule: "complete product: 11 context helpers x 8 status codes x value alphabets (7 strings with HTML / unicode / control characters; maps, structs, pointers, byte and int slices, scalars; unencodable chan / func / NaN / Inf / cyclic values) x preset Content-Type absent / present; 11 pkg/render functions x 3 preset Content-Types; render.Auto x ALL Accept lists of <=3 (thorough 4) entries over 10 entries (the five supported MIME strings, foo/bar, */*, q-parameters, empty); " +
 		"oracle: recorded status, documented Content-Type (preset preserved by every pkg/render renderer), body decodes back (JSONP unwrapped), first supported entry wins, encoding failures land in Context.Errors / the returned error; every evaluation is non-trivial except single-entry Accept lists",
 	Assume: []string{"text/html negotiation is the code's documented no-op and is modelled as such", "XML round trips use one struct type; encoding/xml has no cycle detection so cyclic values are not offered to it"},
 	Bounds: func(tier string) map[string]any {
